@@ -164,6 +164,53 @@ enum Got {
     Other(String),
 }
 
+/// A structural choice: preset in enumeration runs, drawn otherwise; always on the tape.
+fn choose(t: &mut Tape, n: u64, presets: &mut Option<std::vec::IntoIter<u64>>) -> u64 {
+    match presets.as_mut().and_then(|p| p.next()) {
+        Some(v) => t.draw_preset(n, v),
+        None => t.draw(n),
+    }
+}
+
+const ENUM_NAMES: [u64; 3] = [0, 1, 3]; // "solo", "ns:pkg", "a:b:c"
+const ENUM_BASE: [u64; 4] = [0, 1, 2, 3];
+const ENUM_WASM: [u64; 4] = [0, 4, 6, 7];
+const ENUM_WAT: [u64; 5] = [0, 4, 6, 8, 9];
+const ENUM_OVERRIDE: [u64; 7] = [0, 1, 2, 3, 4, 5, 11];
+
+/// Single-key decision-table cells per build: mode x name shape x (unversioned | 4 versions x decoy)
+/// x base x wasm x wat x override.
+pub const CELLS_PER_BUILD: u64 = 2 * 3 * (1 + 4 * 2) * 4 * 4 * 5 * 7;
+pub const BUILDS: u64 = 3;
+
+fn presets_for_cell(mut c: u64) -> Vec<u64> {
+    let mut take = |n: u64| {
+        let d = c % n;
+        c /= n;
+        d
+    };
+    let mode = take(2);
+    let name = ENUM_NAMES[take(3) as usize];
+    let ver = take(9); // 0 = unversioned; 1..=8 = version (ver-1)/2, decoy (ver-1)%2
+    let base = ENUM_BASE[take(4) as usize];
+    let wasm = ENUM_WASM[take(4) as usize];
+    let wat = ENUM_WAT[take(5) as usize];
+    let ov = ENUM_OVERRIDE[take(7) as usize];
+    let mut p = vec![mode, 0 /* one key */, name];
+    if ver == 0 {
+        p.push(0);
+    } else {
+        p.push(1);
+        p.push((ver - 1) / 2);
+    }
+    p.extend([base, wasm, wat]);
+    if ver != 0 {
+        p.push((ver - 1) % 2);
+    }
+    p.push(ov);
+    p
+}
+
 pub fn run(run: &mut Run) {
     let lib = library();
     let root_dir = run.scratch.join(format!("c18-{}", run.index));
@@ -176,11 +223,18 @@ pub fn run(run: &mut Run) {
         (0..n).map(|_| t.draw(256) as u8).collect()
     };
 
-    let error_on_unknown = t.chance(1, 2);
+    let enumerated = run.index < CELLS_PER_BUILD * BUILDS;
+    let mut presets: Option<std::vec::IntoIter<u64>> = if enumerated {
+        Some(presets_for_cell(run.index / BUILDS).into_iter())
+    } else {
+        None
+    };
+    let presets = &mut presets;
+    let error_on_unknown = choose(t, 2, presets) >= 1;
     let deps = "deps";
     let mut tree = Tree::default();
     tree.dir(deps);
-    let nkeys = t.range(1, 3) as usize;
+    let nkeys = 1 + choose(t, 3, presets) as usize;
     let mut keys: Vec<KeySpec> = Vec::new();
     let mut overrides: HashMap<String, String> = HashMap::new();
     let mut cells: Vec<String> = Vec::new();
@@ -190,10 +244,10 @@ pub fn run(run: &mut Run) {
         let name = if !keys.is_empty() && t.chance(1, 3) {
             keys[t.index(keys.len())].name.clone()
         } else {
-            t.pick(NAMES).to_string()
+            NAMES[choose(t, NAMES.len() as u64, presets) as usize].to_string()
         };
-        let version = if t.chance(1, 2) {
-            Some(Version::parse(*t.pick(VERSIONS)).unwrap())
+        let version = if choose(t, 2, presets) >= 1 {
+            Some(Version::parse(VERSIONS[choose(t, VERSIONS.len() as u64, presets) as usize]).unwrap())
         } else {
             None
         };
@@ -216,7 +270,7 @@ pub fn run(run: &mut Run) {
             base.push('/');
             base.push_str(&v.to_string());
         }
-        let base_state = t.draw(8);
+        let base_state = choose(t, 8, presets);
         let base_label = match base_state {
             0 => {
                 tree.file(format!("{base}/pkg.wit"), WIT_OK.as_bytes().to_vec());
@@ -232,7 +286,7 @@ pub fn run(run: &mut Run) {
             }
             _ => "absent",
         };
-        let wasm_label = match t.draw(12) {
+        let wasm_label = match choose(t, 12, presets) {
             0..=3 => {
                 let b = comp(t);
                 tree.file(format!("{base}.wasm"), b);
@@ -249,7 +303,7 @@ pub fn run(run: &mut Run) {
             }
             _ => "absent",
         };
-        let wat_label = match t.draw(16) {
+        let wat_label = match choose(t, 16, presets) {
             0..=3 => {
                 let b = comp(t);
                 let text = wasmprinter::print_bytes(&b).unwrap_or_default();
@@ -273,7 +327,7 @@ pub fn run(run: &mut Run) {
         };
         // decoy where `Path::set_extension` would look (replacing the version's last component)
         let mut decoy_label = "none";
-        if version.is_some() && t.chance(1, 2) {
+        if version.is_some() && choose(t, 2, presets) >= 1 {
             let p = PathBuf::from(&base);
             for ext in ["wasm", "wat"] {
                 let mut d = p.clone();
@@ -292,7 +346,7 @@ pub fn run(run: &mut Run) {
             }
         }
         // override
-        let override_label = match t.draw(20) {
+        let override_label = match choose(t, 20, presets) {
             0 | 6 => {
                 let p = format!("over/o{i}.wasm");
                 let b = comp(t);
@@ -384,6 +438,10 @@ pub fn run(run: &mut Run) {
         };
         t.event(format!("  expect {} -> {row}: {o}", k.show()));
     }
+    run.cover("modes", if enumerated { "enumerated-single-key-cell" } else { "sampled-multi-key" });
+    if enumerated {
+        run.add("enumerated_cells", 1);
+    }
     for c in &cells {
         for (needle, kind) in [
             ("wasm:garbage", "garbage_file"),
@@ -442,7 +500,7 @@ pub fn run(run: &mut Run) {
         Ok(ProcExit::Ok(g)) => g,
         Ok(ProcExit::Panic(p)) => {
             run.violate(
-                format!("panic@{}", p.location),
+                p.class(),
                 format!("FileSystemPackageResolver::resolve panicked at {}: {}", p.location, p.message),
             );
             let _ = std::fs::remove_dir_all(&root_dir);
